@@ -182,6 +182,42 @@ def main(pid, tier):
         rep.nontriv(['convert', ci, excl, incl])
         for f in CS.oracle_c14(series, nii, truth, excl, incl if incl is not None else ([] if custom else None))[:1]:
             rep.failure(f, {'tag': 'filter:convert', 'suite': 'filter', 'series': series, 'excl': excl, 'incl': incl, 'order': order})
+    # ---- (e) parse_and_stack with a user filter over a directory holding several series: every group is filtered with it
+    import tempfile, shutil, glob, warnings
+    from . import check_c19 as C19
+    tmpd = tempfile.mkdtemp(prefix='dcmverif_c14_')
+    try:
+        for di in range(4 if tier == 'quick' else 40):
+            d_ = os.path.join(tmpd, 'dir%d' % di)
+            sers = C19.write_series_dir(r, tier, d_, nser=r.choice([2, 3]))
+            excl = r.sample(['Echo', 'Rows', 'Columns', 'Number', 'Bits', 'Pixel', 'Window'], r.randint(1, 3))
+            flt = dcmstack.make_key_regex_filter(excl, [])
+            paths = sorted(glob.glob(os.path.join(d_, '*.dcm')))
+            rep.evaluations += 1
+            rep.count('filter/parse_and_stack')
+            case = {'suite': 'filter', 'exclude': excl, 'series': [{k: v for k, v in s_.items() if k not in ('files', 'patterns')} for s_ in sers]}
+            try:
+                with warnings.catch_warnings():
+                    warnings.simplefilter('ignore')
+                    stacks = dcmstack.parse_and_stack(paths, warn_on_except=True, meta_filter=flt,
+                                                      time_order=dcmstack.DicomOrdering('EchoTime'))
+                    groups = dcmstack.parse_and_group(paths, warn_on_except=True)
+                    for key, st in stacks.items():
+                        got = CS.quiet(st.to_nifti_wrapper).meta_ext
+                        ref = CS.quiet(dcmstack.stack_group(groups[key], warn_on_except=True, meta_filter=flt,
+                                                            time_order=dcmstack.DicomOrdering('EchoTime')).to_nifti_wrapper).meta_ext
+                        bad_keys = [k for k in got.get_keys() if flt(k, None)]
+                        if bad_keys or sorted(got.get_keys()) != sorted(ref.get_keys()):
+                            rep.failure('parse_and_stack(meta_filter=exclude %s): the stack of group %s keeps %s; a stack of the same '
+                                        'files built with that filter has the keys %s' % (excl, list(key)[:2], bad_keys or sorted(
+                                            set(got.get_keys()) ^ set(ref.get_keys())), len(ref.get_keys())),
+                                        dict(case, tag='filter:parse_and_stack'))
+                            break
+            except Exception as e:
+                rep.notes.append('parse_and_stack probe: %r' % e)
+            shutil.rmtree(d_, ignore_errors=True)
+    finally:
+        shutil.rmtree(tmpd, ignore_errors=True)
     from .check_meta import finish_disagreements
     finish_disagreements(rep)
     return rep.finish()
